@@ -8,7 +8,7 @@ from .c04 import cursor_calls
 
 PID = "C05"
 META = {
-    "explanation": "Static analysis of PrefixIter / RevPrefixIter on the MIR of the current tree: (R1) each Ok(Some) exit is control-dependent on `key.starts_with(self.prefix)` of exactly the entry being yielded and there is no other success exit that can carry an entry; errors of the cursor are propagated, never folded into Ok(None); (R2) first call = >=-seek on the prefix (forward) / move_on_last_prefix on a copy of the prefix (reverse), later calls = exactly one step; (R3) move_on_last_prefix as a 3-arm table (no successor key -> last entry; successor key found exactly -> one step back; otherwise the current entry); (R4) advance_key as a 3-arm table (increment last byte if it does not overflow, else pop and retry, empty -> None). Soundness of the output on all paths is decided; completeness rests on C02 and on advance_key's value semantics, which R4 pins by shape only.",
+    "explanation": "Static analysis of PrefixIter / RevPrefixIter on the MIR of the current tree: (R1) each Ok(Some) exit is control-dependent on `key.starts_with(self.prefix)` of exactly the entry being yielded and there is no other success exit that can carry an entry; errors of the cursor are propagated, never folded into Ok(None); (R2) first call = >=-seek on the prefix (forward) / move_on_last_prefix on a copy of the prefix (reverse), later calls = exactly one step; (R3) move_on_last_prefix as a 3-arm table (no successor key -> last entry; successor key found exactly -> one step back; otherwise the current entry); (R4) advance_key as a 3-arm table (increment last byte if it does not overflow, else pop and retry, empty -> None). Soundness of the output on all paths is decided; completeness rests on C02 and on advance_key's value semantics, which R4 pins by shape only. The iterators run on this cursor over files this Writer emits: the shared file-wellformedness and cursor-traversal rules (rules/shared.py) are re-run as necessary conditions.",
     "assumptions": ["the seeks of C02", "u8::checked_add, slice::starts_with, Vec::pop contracts"],
 }
 
@@ -29,6 +29,9 @@ def run(ck):
         ck.guard("C05-R6", r2_descent, ck, F, "C05-R6")
         ck.guard("C05-R6", r3_rel, ck, F, "C05-R6")
         ck.guard("C05-R6", r4_offsets, ck, F, "C05-R6")
+        from . import shared
+        shared.file_wellformed(ck, F, "C05-R7")
+        shared.cursor_traversal(ck, F, "C05-R5")
     ck.trusted += ["rustc MIR construction", "core slice::starts_with / u8::checked_add"]
 
 
